@@ -89,7 +89,7 @@ func validTok(p P) string {
 	return "x"
 }
 
-var badInts = []string{"abc", "1.5", "", "99999999999999999999"}
+var badInts = []string{"abc", "1.5", "", "99999999999999999999", "9223372036854775808", "9999999999999999999", "-9223372036854775809"}
 var badFloats = []string{"abc", "", "1.5.2", "--1"}
 var badBounds = []string{"abc", "", "(", "(abc"}
 
